@@ -44,7 +44,20 @@ func (e *Exec) call(fr *Frame, st *BState, x *ssa.Call) SV {
 		}
 		st.ghost[cn] = intSV(add(old, intLit(1)))
 		ghostTypes[cn] = types.Typ[types.Int]
-		return havoc("invoke " + c.Method.FullName())
+		// the receiver and the arguments of the most recent call of the method (lastrecv(Name), lastarg(Name, i))
+		st.ghost["$lastrecv."+c.Method.Name()] = e.val(fr, c.Value)
+		ghostTypes["$lastrecv."+c.Method.Name()] = c.Value.Type()
+		for i, a := range c.Args {
+			k := fmt.Sprintf("$lastarg.%s.%d", c.Method.Name(), i)
+			st.ghost[k] = e.val(fr, a)
+			ghostTypes[k] = a.Type()
+		}
+		r := havoc("invoke " + c.Method.FullName())
+		if _, isTuple := resT.(*types.Tuple); !isTuple {
+			st.ghost["$lastres."+c.Method.Name()] = r
+			ghostTypes["$lastres."+c.Method.Name()] = resT
+		}
+		return r
 	}
 	var args []SV
 	for _, a := range c.Args {
@@ -767,6 +780,9 @@ func (e *Exec) callByContract(fr *Frame, st *BState, x *ssa.Call, f *ssa.Functio
 			e.assume(le(scal(st.ghost[k]), nv))
 			st.ghost[k] = intSV(nv)
 		}
+		if m, ok := lastCallGhost(k); ok && calleeInvokes[m] {
+			st.ghost[k] = e.freshSV(ghostTypes[k], "call."+k, st.reach, false)
+		}
 	}
 	var res SV
 	var results []SV
@@ -849,3 +865,20 @@ func ownedBy(a *ssa.Alloc, f *ssa.Function) bool {
 }
 
 var staticFuncOf = map[SV]*ssa.Function{}
+
+// lastCallGhost: is k one of the $lastrecv.M / $lastarg.M.i ghosts, and of which method
+func lastCallGhost(k string) (string, bool) {
+	if strings.HasPrefix(k, "$lastrecv.") {
+		return strings.TrimPrefix(k, "$lastrecv."), true
+	}
+	if strings.HasPrefix(k, "$lastres.") {
+		return strings.TrimPrefix(k, "$lastres."), true
+	}
+	if strings.HasPrefix(k, "$lastarg.") {
+		r := strings.TrimPrefix(k, "$lastarg.")
+		if i := strings.LastIndex(r, "."); i >= 0 {
+			return r[:i], true
+		}
+	}
+	return "", false
+}
